@@ -1101,13 +1101,19 @@ def c04(report, rng, tier, findings):
         # every variable ranges over the root class: no (type-filtered) empty domain (that is C02-F1's territory)
         base['vars'] = [(vid, 'A', raw) for vid, _, raw in base['vars']]
         ids = [v[0] for v in base['vars']]
+        # 15%: one variable has an EMPTY domain (while instances of its class exist); every query of the pool then selects
+        # every variable, so that the answer is the empty product (a non-selected empty variable is C02-F1's territory)
+        empty_var = None
+        if rng.random() < 0.15:
+            empty_var = rng.choice(ids)
+            base['vars'] = [(vid, cls, [] if vid == empty_var else raw) for vid, cls, raw in base['vars']]
         pool = []
         for _ in range(rng.randint(1, 3)):
             g = gen.CondGen(rng, cfg, ids)
             cond = [g.cond(rng.randint(0, 2))]
             if rng.random() < 0.7:          # a user predicate, so that a raising evaluation is possible
                 cond.append((rng.choice(('pred', 'predc')), 'is_big', ('var', rng.choice(ids))))
-            k = rng.randint(1, len(ids))
+            k = rng.randint(1, len(ids)) if empty_var is None else len(ids)
             sel = [('var', v) for v in rng.sample(ids, k)]
             pool.append({'sel': sel, 'cond': cond})
         hist = []
@@ -1125,7 +1131,8 @@ def c04(report, rng, tier, findings):
         cases.append(case)
     results = pmap(c04_impl, [(c, {'caching': (False, True)}) for c in cases])
     fnd = {f['id']: f for f in findings.get('findings', []) if f.get('status', 'open') == 'open'}
-    report.rule = ("a pool of 1-3 queries over 1-2 SHARED variables (35% of the domains list an object twice), and a history "
+    report.rule = ("a pool of 1-3 queries over 1-2 SHARED variables (35% of the domains list an object twice, 15% of the cases "
+                   "have a variable with an empty domain), and a history "
                    "of 2-6 (thorough 10) operations - evaluate fully, take k results then close, evaluate while a user predicate "
                    "raises at its j-th call - ending with a full evaluation; EVERY evaluation that runs to completion is compared "
                    "with the fresh answer of that query (oracle), partial ones must be a prefix-consistent subset; the user's "
